@@ -172,6 +172,37 @@ def expected_unit(arg, options):
     return tm.PY_format, None
 
 
+LIST_BIT = {"i": 1, "d": 2, "s": 4}
+
+
+def list_tags(bit):
+    """value tags of the sequences the converter with this element class accepts (tag = 100 + mask, the mask says
+    which of the int / double / string element converters accept the sequence: computed with the helper model)"""
+    return ".".join(str(100 + m) for m in range(8) if m & bit)
+
+
+def conv_kind(arg, options):
+    """element converter of a list-mode argument: i / d / s, or None when the argument is not converted from a sequence"""
+    tm = arg.typemap
+    intent = arg.metaattrs["intent"]
+    if intent not in ("in", "inout") or arg.attrs["implied"]:
+        return None
+    if tm.base == "vector":
+        targs = arg.template_arguments
+        elem = targs[0].typemap if targs else None
+        fmt = elem.PY_format if elem is not None else None
+    elif tm.sgroup == "char" and arg.get_indirect_stmt() == "**":
+        return "s"
+    elif (arg.attrs["rank"] or arg.attrs["dimension"]) and tm.sgroup == "native" and options.PY_array_arg == "list":
+        fmt = tm.PY_format
+    else:
+        return None
+    if fmt in extract_pystmts.UNIT_CLASS:
+        cls = extract_pystmts.UNIT_CLASS[fmt]
+        return "d" if 2 in cls else "i"
+    return None
+
+
 def exact_tag(unit, typeobj, clsids):
     """the value tag an `O!` unit demands ('-' for every other unit: its value classes come from the
     regenerated table Gen.PyStmts.unitClasses)"""
@@ -192,9 +223,11 @@ def node_params(node, intern, clsids):
         hidden = 1 if arg.attrs["hidden"] else 0
         unit, typeobj = expected_unit(arg, node.options)
         unit = unit or ""
+        ck = conv_kind(arg, node.options)
+        exact = list_tags(LIST_BIT[ck]) if ck else exact_tag(unit, typeobj, clsids)
         enc = "%d,%d,%d,%d,%d,%s,%s" % (
             intern(arg.name), intent, 1 if arg.init is not None else 0, implied, hidden,
-            ".".join(str(ord(c)) for c in unit) or "-", exact_tag(unit, typeobj, clsids))
+            ".".join(str(ord(c)) for c in unit) or "-", exact)
         res.append((arg.name, enc))
     return res
 
@@ -691,7 +724,7 @@ def good_value(p, idx, alt=0):
         return ["pt", 30 + idx + alt, 0.5 + idx]
     if b in ("ilist", "ilist_inout", "vec"):
         return ["tuple" if alt else "list", [["int", 3 + idx], ["int", 4 + alt], ["bool", True]][: 3 - (idx % 2)]]
-    if b == "dlist":
+    if b in ("dlist", "dvec"):
         return ["list", [["float", 1.5 + idx], ["int", 2 + alt]]]
     if b == "strlist":
         return ["list", [["str", "ab%d" % idx], ["str", "c" * (alt + 1)]]]
@@ -706,7 +739,7 @@ def bad_value(p):
         return ["int", 1]
     if b in ("cls", "clsptr", "pt", "ptref"):
         return ["int", 5]
-    if b in ("ilist", "ilist_inout", "vec", "dlist"):
+    if b in ("ilist", "ilist_inout", "vec", "dlist", "dvec"):
         return ["list", [["int", 1], ["str", "x"]]]
     if b == "strlist":
         return ["list", [["str", "a"], ["int", 3]]]
@@ -798,9 +831,21 @@ def expectation(f, S, flag):
     elif f.result in ("clsptr_res", "clsref_res"):
         rets.append({"o": f.rescls, "flag": pygen.RESULT_VALUE[f.result]})
     elif not f.ctor and f.result != "void":
-        rets.append(enc_expected(pygen.RESULT_VALUE[f.result]))
+        rets.append(enc_expected(pygen.RESULT_VALUE.get(f.result)) if f.result != "idim_res" else None)
+    if f.result == "idim_res":
+        rets.pop()
     vi = 0
     byname = {}
+    env = {}
+    for p in f.params:          # values of the scalar arguments, for +dimension expressions
+        if p.visible:
+            v = raw(S[vi]) if vi in S else p.default
+            if p.base() in pygen.INTLIKE:
+                env[p.name] = int(v)
+            vi += 1
+    if f.result == "idim_res":
+        rets.append(enc_expected([200 + i for i in range(pygen.dim_total(f.resdims, env))]))
+    vi = 0
     for idx, p in enumerate(f.params):
         if p.kind == "implied":
             toks.append(pygen.trace_value("implied", len(byname[p.of])))
@@ -814,7 +859,7 @@ def expectation(f, S, flag):
                 rets.append(enc_expected(pygen.out_value(p, idx, raw(S[vi]))))
             vi += 1
         else:
-            rets.append(enc_expected(pygen.out_value(p, idx)))
+            rets.append(enc_expected(pygen.out_value(p, idx, env=env)))
     head = f.label
     if f.cls and not f.static and not f.ctor:
         head += "[%d]" % flag
@@ -951,13 +996,14 @@ def model_tag(v, clsids_by_name):
     if t == "none":
         return TAG_NONE
     if t in ("list", "tuple"):
-        return TAG_LIST
+        return 100 + LISTMASK.get(json.dumps(v), 0)
     if t == "pt":
         return clsids_by_name.get("Pt", TAG_CLS0 + 7)
     return clsids_by_name.get(v[1], TAG_CLS0 + 7)
 
 
 ACCEPTS = {"i": [0, 3], "d": [0, 2, 3]}       # replaced by the regenerated unit classes in run()
+LISTMASK = {}
 
 
 def to_spec(v):
@@ -992,7 +1038,13 @@ def check_library(ctx, drv, lib, thorough, r, dis_gen, dis_call, extra_calls=())
         groups = lib.groups()
         allcalls = []
         for key, group in groups.items():
+            if len(group) > 1:
+                hk = "set of %d: " % len(group) + " | ".join(sorted((f.vis[0].kind if f.vis else "()") for f in group))
+                DIST["heads"][hk] = DIST["heads"].get(hk, 0) + 1
             for f in group:
+                for dims in [p.dims for p in f.params if p.dims] + ([f.resdims] if f.resdims else []):
+                    dk = "rank %d: %s" % (len(dims), ",".join(re.sub(r"[a-z]+", "v", e) for e in dims))
+                    DIST["dims"][dk] = DIST["dims"].get(dk, 0) + 1
                 for p in f.params:
                     DIST["kinds"][p.kind] = DIST["kinds"].get(p.kind, 0) + 1
                 rk = "result:" + str(f.result if not f.ctor else "ctor")
@@ -1015,6 +1067,26 @@ def check_library(ctx, drv, lib, thorough, r, dis_gen, dis_call, extra_calls=())
         except RuntimeError as e:
             ctx.fail("import:" + lib.name, "compiled extension cannot be imported / driven: " + str(e)[-600:], replay_base)
             return
+        # ---------------- which element converters accept each list value (helper model)
+        listvals = {}
+        for c in allcalls:
+            for v in list(c["pos"]) + list((c["kw"] or {}).values()):
+                if v[0] in ("list", "tuple"):
+                    listvals.setdefault(json.dumps(v), v)
+        lkeys = list(listvals)
+        lreqs = []
+        for k in lkeys:
+            ms, _items = c03_helpers.model_obj(to_spec(listvals[k]))
+            lreqs += ["getlist %s %s" % (".".join(map(str, ACCEPTS["i"])), ms),
+                      "getlist %s %s" % (".".join(map(str, ACCEPTS["d"])), ms), "charptr " + ms]
+        lres = drv.run(lreqs) if (drv.available() and lreqs) else []
+        LISTMASK.clear()
+        for j, k in enumerate(lkeys):
+            m = 0
+            for b in range(3):
+                if lres and lres[3 * j + b].startswith("ok"):
+                    m |= 1 << b
+            LISTMASK[k] = m
         # ---------------- model requests (tie D2)
         reqs = []
         for c in allcalls:
@@ -1036,29 +1108,6 @@ def check_library(ctx, drv, lib, thorough, r, dis_gen, dis_call, extra_calls=())
             else:
                 reqs.append("disp kwds %s %s %s" % ("|".join(enc_params(p) for _n, p in nodes), pos, kw))
         model = drv.run(reqs) if drv.available() else [None] * len(reqs)
-        # conversion helpers (list-mode arrays, vectors): the helper model's verdict for every list argument
-        hreqs, hmap = [], {}
-        for c in allcalls:
-            group = groups[c["key"]]
-            if len(group) != 1:
-                continue
-            vis = group[0].vis
-            names = [p.name for p in vis]
-            given = dict(enumerate(c["pos"]))
-            for k, v in (c["kw"] or {}).items():
-                if k in names and names.index(k) not in given:
-                    given[names.index(k)] = v
-            for i, v in given.items():
-                if i < len(vis) and vis[i].base() in pygen.LISTKINDS:
-                    spec = to_spec(v)
-                    ms, _items = c03_helpers.model_obj(spec)
-                    elem = pygen.ELEM[vis[i].base()]
-                    if elem == "cstr":
-                        hreqs.append("charptr " + ms)
-                    else:
-                        hreqs.append("getlist %s %s" % (".".join(map(str, ACCEPTS["i" if elem == "int" else "d"])), ms))
-                    hmap.setdefault(c["i"], []).append(len(hreqs) - 1)
-        hmodel = drv.run(hreqs) if (drv.available() and hreqs) else []
         # ---------------- judge
         for c, mline in zip(allcalls, model):
             ctx.count(1)
@@ -1135,12 +1184,6 @@ def check_library(ctx, drv, lib, thorough, r, dis_gen, dis_call, extra_calls=())
             if outcome.startswith("exc "):
                 if not (res["r"] == "exc" and res["type"] == outcome[4:]):
                     dis_call.append({"call": lib.name + ":" + sig, "model": mline, "impl": res})
-                continue
-            hverdicts = [hmodel[j] for j in hmap.get(c["i"], [])] if hmodel else []
-            if any(h.startswith("err") for h in hverdicts):
-                # the dispatch model accepts the call, the helper model rejects a list argument
-                if not (res["r"] == "exc" and res["type"] in ("TypeError", "ValueError") and res["trace"] == ""):
-                    dis_call.append({"call": lib.name + ":" + sig, "model": mline + " / helper: " + ";".join(hverdicts), "impl": res})
                 continue
             if res["r"] != "ok":
                 dis_call.append({"call": lib.name + ":" + sig, "model": mline, "impl": res})
@@ -1229,7 +1272,7 @@ TEXT_LIBS = [
 ]
 
 
-DIST = {"overloads": {}, "arities": {}, "kinds": {}}
+DIST = {"overloads": {}, "arities": {}, "kinds": {}, "heads": {}, "dims": {}}
 
 
 def load_corpus():
@@ -1251,6 +1294,8 @@ def run(ctx):
     DIST["overloads"].clear()
     DIST["arities"].clear()
     DIST["kinds"].clear()
+    DIST["heads"].clear()
+    DIST["dims"].clear()
     try:
         _changed, tstats, _live = extract_pystmts.regenerate()
         ctx.note("translator (py_statements / typemap PY_* -> Gen/PyStmts.lean)", tstats)
@@ -1319,6 +1364,8 @@ def run(ctx):
     alldef = sum(v for k, v in DIST["overloads"].items() if " first=0" in k and " n=0" not in k and not k.startswith("set=1 "))
     ctx.note("all_defaulted_overloads_in_overload_sets", alldef)
     ctx.note("parameter_and_result_kinds (compiled libraries)", dict(sorted(DIST["kinds"].items())))
+    ctx.note("overload_sets_by_first_parameter_kind", dict(sorted(DIST["heads"].items())))
+    ctx.note("dimension_expressions (rank: extents, v = an int argument)", dict(sorted(DIST["dims"].items())))
     ctx.note("libraries_compiled", [l.name for l in libs])
     ctx.note("libraries_text_only", len(tlibs))
     ctx.note("disagreements_emitted_text", len(dis_gen))
